@@ -1,5 +1,130 @@
+/-
+  Driver front-end of the Rpc family (property C15).  Pure and stateless: a request carries the
+  whole history.  It only (de)serialises and calls the model's definitions (`session`, `serverRun`,
+  `serverApi`, `inproc`, `expected`, `reqOK`, `resOK`, `failing`) — the ones the theorems are about.
+
+  The library parameter `Lib` is instantiated with a TRACE: the outcomes the harness observed when
+  it made the same calls in-process, consumed one per request.
+-/
 import SuppModel.Drv.Util
+import SuppModel.Drv.Msgpack
+import SuppModel.Rpc.Server
+
 namespace SuppModel.Drv.Rpc
-open Lean SuppModel.Drv
-def handle (_j : Json) : Json := errJson "driver for Rpc not built yet"
+open Lean SuppModel.Msgpack SuppModel.Rpc SuppModel.Drv SuppModel.Drv.Msgpack
+
+abbrev Trace := List ApiResult
+
+def exhausted : ApiResult := .raised (.str []) (.str [])
+
+def pop (t : Trace) : Trace × ApiResult :=
+  match t with
+  | [] => ([], exhausted)
+  | x :: xs => (xs, x)
+
+def rowOf : Value → List Value
+  | .tup xs => xs
+  | .arr xs => xs
+  | v => [v]
+
+/-- the library as observed in-process -/
+def traceLib : Lib Trace where
+  newProject := fun t _ =>
+    match pop t with
+    | (t', .ok _) => (t', none)
+    | (t', .raised c m) => (t', some (c, m))
+  assist := fun t _ _ _ => pop t
+  location := fun t _ _ _ => pop t
+  lint := fun t _ _ =>
+    match pop t with
+    | (t', .ok (.arr rs)) => (t', .ok (rs.map rowOf))
+    | (t', .ok (.tup rs)) => (t', .ok (rs.map rowOf))
+    | (t', .ok v) => (t', .error (.str [], v))
+    | (t', .raised c m) => (t', .error (c, m))
+  eval := fun t _ => pop t
+  noProject := fun t => pop t
+  other := fun st _ _ _ => let (t', r) := pop st.1; ((t', st.2), r)
+
+def resultOfJson (j : Json) : Except String ApiResult :=
+  match j.getObjVal? "ok" with
+  | .ok v => do pure (.ok (← valueOfJson v))
+  | .error _ => do
+    let a ← jarr j "raised"
+    if a.size ≠ 2 then throw "bad raised"
+    pure (.raised (← valueOfJson a[0]!) (← valueOfJson a[1]!))
+
+def reqOfJson (j : Json) : Except String (Req × ApiResult) := do
+  let name ← valueOfJson (← j.getObjVal? "name")
+  let args ← (← jarr j "args").toList.mapM valueOfJson
+  let kw ← (← jarr j "kwargs").toList.mapM (fun p => do
+    let pr ← p.getArr?
+    if pr.size ≠ 2 then throw "bad pair"
+    pure ((← valueOfJson pr[0]!), (← valueOfJson pr[1]!)))
+  let out ← resultOfJson (← j.getObjVal? "out")
+  pure (⟨name, args, kw⟩, out)
+
+def outcomeToJson : Outcome → Json
+  | .returned v => Json.mkObj [("ret", valueToJson v)]
+  | .exception m => Json.mkObj [("exc", valueToJson m)]
+  | .clientError => Json.mkObj [("clientError", Json.num 1)]
+  | .sendError e => Json.mkObj [("sendError", Json.str (errName e))]
+  | .noReply => Json.mkObj [("noReply", Json.num 1)]
+
+def exitToJson : Option Exit → Json
+  | none => Json.null
+  | some .eof => Json.str "eof"
+  | some (.ioError e) => Json.str ("ioError:" ++ errName e)
+  | some .closed => Json.str "closed"
+  | some .crashed => Json.str "crashed"
+  | some .unmodelled => Json.str "unmodelled"
+
+def hexStr (bs : List Nat) : Json := Json.str (toHex bs)
+
+def handle (j : Json) : Json :=
+  match jstr j "op" with
+  | .ok "session" =>
+    match (jarr j "reqs").bind (fun a => a.toList.mapM reqOfJson) with
+    | .error e => errJson e
+    | .ok rqs =>
+      let reqs := rqs.map Prod.fst
+      let trace : Trace := rqs.map Prod.snd
+      let configured := (j.getObjValAs? Bool "configured").toOption.getD false
+      let api := serverApi traceLib
+      let st0 : Trace × Bool := (trace, configured)
+      let (outs, stF, ex) := session api st0 reqs
+      let (ins, stI) := inproc api st0 reqs
+      Json.mkObj [
+        ("outcomes", Json.arr (outs.map outcomeToJson).toArray),
+        ("exit", exitToJson ex),
+        ("project", Json.bool stF.2),
+        ("left", Json.num stF.1.length),
+        ("reqOK", Json.arr (reqs.map (fun r => Json.bool (reqOK r))).toArray),
+        ("resOK", Json.arr (ins.map (fun x => Json.bool (resOK x))).toArray),
+        ("failing", Json.arr (ins.map (fun x => Json.bool (failing x))).toArray),
+        ("expected", Json.arr (ins.map (fun x => outcomeToJson (expected x))).toArray),
+        ("inproc_project", Json.bool stI.2)]
+  | .ok "stream" =>
+    -- raw incoming messages (hex, or null = peer closed) against `serverRun`
+    match jarr j "msgs", (jarr j "trace").bind (fun a => a.toList.mapM resultOfJson) with
+    | .ok ms, .ok trace =>
+      let msgs : List (Option (List Nat)) := ms.toList.map (fun m =>
+        match m.getStr? with
+        | .ok s => fromHex s
+        | .error _ => none)
+      let configured := (j.getObjValAs? Bool "configured").toOption.getD false
+      let (reps, stF, ex) := serverRun (serverApi traceLib) (trace, configured) msgs
+      Json.mkObj [
+        ("replies", Json.arr (reps.map hexStr).toArray),
+        ("decoded", Json.arr (reps.map (fun b => outcomeToJson (clientDecode b))).toArray),
+        ("exit", exitToJson ex),
+        ("left", Json.num stF.1.length)]
+    | _, _ => errJson "bad stream request"
+  | .ok "literals" =>
+    Json.mkObj [("close", hexStr closeName), ("SerializeError", hexStr serErrCls),
+      ("Serialize error", hexStr serErrMsg), ("assist", hexStr sAssist), ("location", hexStr sLocation),
+      ("lint", hexStr sLint), ("eval", hexStr sEval), ("configure", hexStr sConfigure),
+      ("source", hexStr pSource), ("position", hexStr pPosition), ("filename", hexStr pFilename),
+      ("syntax_only", hexStr pSyntaxOnly), ("config", hexStr pConfig)]
+  | _ => errJson "unknown rpc op"
+
 end SuppModel.Drv.Rpc
